@@ -102,7 +102,8 @@ def run_inputs(spec, scen, inputs, variant_rnd=None, write_concern=False):
                         ctx.__exit__(None, None, None)
                 elif a == "ext":
                     ext_file = i["r"]
-                    res[i["r"]].write_raw(val.to_py(i["v"]))
+                    style = i.get("style", 1 if (variant_rnd is not None and variant_rnd.random() < 0.3) else 0)
+                    res[i["r"]].write_raw(val.to_py(i["v"]), style=style)
             except Exception as e:  # noqa: BLE001
                 ev["errs"], ev["kind"] = _errs(e, by_path)
                 if ev["kind"] not in ("BufferedError", "MetadataError"):
